@@ -38,6 +38,10 @@ def rand_dir(rng, depth):
             names = [st + '.pyc', st + '.pyo']
         for n in names:
             entries[n] = ['f', n, '%s-%d' % (n, rng.randint(0, 99))]
+            if n.endswith(('.pyc', '.pyo')) and rng.random() < 0.15:
+                # a compiled file that is a symbolic link to a file kept elsewhere (a shared cache): an orphan like any other —
+                # the link goes, what it points to stays
+                entries[n].append('link')
     if depth > 0:
         for _ in range(rng.randint(0, 3)):
             n = rng.choice(DIRN)
